@@ -429,8 +429,9 @@ fn judge_trace<K: Kit>(prop: StepProp, ctx: &Ctx, b: &mut Batch, kit: &K, case: 
         let mut checked_edges: std::collections::HashSet<(u64, u64)> = std::collections::HashSet::new();
         // right after setup the trees must be fresh: the start alone, and at most one goal root
         match &tr.snaps[0] {
-            Snap::Tree(t) if t.len() != 1 => j.viol(StepProp::C15, "tree:not-reset-by-setup", format!("{} nodes right after setup", t.len()), 0),
-            Snap::Trees(a, g) if a.len() != 1 || g.len() > 1 => j.viol(StepProp::C15, "tree:not-reset-by-setup", format!("{} / {} nodes right after setup", a.len(), g.len()), 0),
+            // (one root per listed start state at most)
+            Snap::Tree(t) if t.is_empty() || t.len() > 1 + case.problem.extra_starts.len() => j.viol(StepProp::C15, "tree:not-reset-by-setup", format!("{} nodes right after setup", t.len()), 0),
+            Snap::Trees(a, g) if a.is_empty() || a.len() > 1 + case.problem.extra_starts.len() || g.len() > 1 => j.viol(StepProp::C15, "tree:not-reset-by-setup", format!("{} / {} nodes right after setup", a.len(), g.len()), 0),
             _ => {}
         }
         for (si, s) in tr.snaps.iter().enumerate() {
@@ -442,7 +443,22 @@ fn judge_trace<K: Kit>(prop: StepProp, ctx: &Ctx, b: &mut Batch, kit: &K, case: 
                 }
                 let expected_root: Option<&[f64]> = if name == "goal_tree" { None } else { Some(&case.problem.start) };
                 for (sig, det) in tree_structure(tree, expected_root, name) {
+                    // a further root is admissible when it is one of the listed start states
+                    // (its validity is checked below)
+                    if sig.ends_with(":second-root") && !case.problem.extra_starts.is_empty() {
+                        continue;
+                    }
                     j.viol(StepProp::C15, &sig, det, si);
+                }
+                for (ni, nd) in tree.iter().enumerate() {
+                    if ni > 0 && nd.parent.is_none() && name != "goal_tree" {
+                        let listed = case.problem.extra_starts.iter().any(|e| bits_eq(e, &nd.s));
+                        if !listed && !case.problem.extra_starts.is_empty() {
+                            j.viol(StepProp::C15, &format!("{name}:second-root"), format!("node {ni} has no parent and is not a listed start state"), si);
+                        } else if listed && !eval.valid(&kit.unflat(&nd.s), &nd.s) {
+                            j.viol(StepProp::C15, &format!("{name}:invalid-root"), format!("the listed start state {:?} is rejected by the validity checker but is a root of the tree", nd.s), si);
+                        }
+                    }
                 }
                 if name == "goal_tree" {
                     // root must be one of the goal samples handed out, and satisfy the goal
@@ -791,6 +807,13 @@ pub fn make_case(r: &mut Sm, idx: usize, prop: StepProp, depth_exhaustive: Optio
 
 pub fn run_case(prop: StepProp, ctx: &Ctx, b: &mut Batch, case: &StepCase) {
     let mut owned = case.clone();
+    // C15, now and then: the problem lists further start states (valid ones, and ones deep or
+    // marginally inside an obstacle). A planner may ignore them or root further trees at the
+    // valid ones; an invalid one must never become a node.
+    if prop == StepProp::C15 && case.problem.extra_starts.is_empty() && (case.script.len() + case.letters.len()) % 8 == 0 {
+        let mut r = Sm::derive(case.script.len() as u64, &[case.letters.len() as u64, 1515]);
+        super::paths::add_extra_starts_to(&mut r, &mut owned.problem, b);
+    }
     with_kit!(case.problem.spec, K, kit => {
         if let (Some((ia, ib)), Ok(sp)) = (case.step_from, kit.build()) {
             let d = sp.distance(&kit.unflat(&case.letters[ia]), &kit.unflat(&case.letters[ib]));
